@@ -164,6 +164,7 @@ package decorator
 //@ ensures ast_map_grows: forall k dst.Node :: {has(r.Ast.Nodes, k)} old(has(r.Ast.Nodes, k)) ==> has(r.Ast.Nodes, k) && r.Ast.Nodes[k] == old(r.Ast.Nodes[k])
 //@ ensures dst_map_grows: forall k ast.Node :: {has(r.Dst.Nodes, k)} old(has(r.Dst.Nodes, k)) ==> has(r.Dst.Nodes, k) && r.Dst.Nodes[k] == old(r.Dst.Nodes[k])
 //@ ensures duplicates_rejected: allowDuplicate || !old(has(r.Ast.Nodes, n))
+//@ ensures plain_ident: !old(has(r.Ast.Nodes, n)) && typeof(n) == type(*dst.Ident) && cast(n, type(*dst.Ident)).Path == "" ==> typeof(result) == type(*ast.Ident) && cast(result, type(*ast.Ident)).Name == cast(n, type(*dst.Ident)).Name
 //@ ensures fresh_unless_duplicate: !old(has(r.Ast.Nodes, n)) ==> !wasAllocated(ref(result))
 //@ foreach invariant count: 0 <= $i && $i <= len($src)
 //@ foreach invariant length: len($dst) == $i
@@ -348,10 +349,9 @@ package decorator
 // ---------------------------------------------------------------------------------------------
 // RestoreFile (restorer.go)
 
-// Assumed for now (its body is not yet under contract): import management edits the dst tree and the
-// restorer's package-name table only; it does not touch the position state, the node maps or the file set.
+// Import management edits the dst tree and the restorer's package-name table only; it does not touch
+// the position state, the node maps, the object maps or the file set (frame, discharged on the body).
 //@ func (r *FileRestorer) updateImports
-//@ trusted
 //@ modifies allbut(heap(FileRestorer.cursor); heap(FileRestorer.lines); heap(FileRestorer.comments); heap(FileRestorer.cursorAtNewLine); heap(FileRestorer.base); heap(FileRestorer.Restorer); heap(FileRestorer.file); heap(FileRestorer.Name); heap(Restorer.Fset); heap(Restorer.Extras); heap(Restorer.Map); heap(token.FileSet.base); elems(int); elems(*ast.CommentGroup); map(dst.Node, ast.Node); map(ast.Node, dst.Node); heap(FileRestorer.nodeDecl); heap(FileRestorer.nodeData); map(*dst.Object, *ast.Object); map(*ast.Object, *dst.Object); map(*dst.Scope, *ast.Scope); map(*ast.Scope, *dst.Scope); map(*ast.Object, dst.Node))
 
 //@ func (r *FileRestorer) RestoreFile
